@@ -683,6 +683,12 @@ func c13(c *Ctx) (*report.Result, error) {
 			res.Undec("O13.6", "visitNamespace: visit callback", fnPos(c.Prog, f), "not found")
 		}
 	}
+	res.RuleDoc["O13.9"] = "no event type is skipped that can carry a mapped name: the skip list and the message shortcut of namespace translation do not hide a namespace-name site (same analysis as O12.3) - a name the request side maps and the response side skips does not survive the round trip"
+	if r12, err := nsWalkRules(c, "C12"); err == nil && r12 != nil {
+		if n := importObligations(res, r12, "O13.9", func(o report.Obligation) bool { return o.Rule == "O12.3" && o.Status != report.Holds || o.Rule == "O12.3" && strings.HasPrefix(o.Construct, "skip[") }); n < 10 {
+			res.Undec("O13.9", "skip-list obligations of O12.3", "", fmt.Sprintf("%d imported, at least 10 expected", n))
+		}
+	}
 	res.RuleDoc["O13.7"] = "translation, access control and repair keep no memory between messages: no shipped function of the interceptor, proto/compat, auth and collect packages stores into package-level state, receiver fields or sync.Maps after construction - a cache keyed by message type or content makes the treatment of one message depend on the ones before it"
 	checkStateless(c, res, "O13.7", []string{"interceptor", "proto/compat", "auth", "collect"}, map[string]string{})
 	res.RuleDoc["O13.8"] = "no swallowed error in the files the mechanism lives in: no function returns a nil error on a path on which an error obtained from a call is known to be non-nil (io.EOF from a stream Recv, the normal end of a receive loop, is the one accepted idiom)"
